@@ -18,7 +18,14 @@ git -C /repo worktree add -q --detach "$wt" HEAD || exit 2
 cleanup() { git -C /repo worktree remove --force "$wt" 2>/dev/null; rm -rf "$wt" "$D/bin/alt-$(echo "$wt" | tr '/' '_')" "$D/work/alt-$(basename "$wt")"; }
 trap cleanup EXIT
 res() { echo "$pid-$n: $1"; echo "$1" > "$out/REJECTED"; exit 3; }
-git -C "$wt" apply "$src/patch.diff" 2>/dev/null || res "patch does not apply"
+rebased=""
+if ! git -C "$wt" apply "$src/patch.diff" 2>/dev/null; then
+  # the library has moved on since the patch was written (later fix: commits): retry with reduced context and keep the
+  # re-based diff (the original is preserved as patch.as-written-by-agent.diff)
+  git -C "$wt" apply -C1 "$src/patch.diff" 2>/dev/null || res "patch does not apply"
+  git -C "$wt" diff > "$wt/.rebased.diff"
+  rebased="$wt/.rebased.diff"
+fi
 ( cd "$wt" && go build ./... ) >/dev/null 2>&1 || res "does not compile"
 suite=$(cd "$wt" && go test -count=1 -vet=off -timeout 180s . 2>&1 | tail -1)
 echo "$suite" | grep -q '^ok' || res "existing suite fails with the patch: $suite"
@@ -29,9 +36,13 @@ git -C "$wt" checkout -q -- .
 demo_without=$(cd "$wt" && go test -count=1 -vet=off -timeout 180s -run "TestSeeded_${pid}_" . 2>&1 | tail -1)
 echo "$demo_without" | grep -q '^ok' || res "demo fails WITHOUT the patch: $demo_without"
 rm -f "$wt/zz_seeded_demo_test.go"
-git -C "$wt" apply "$src/patch.diff"
+if [ -n "$rebased" ]; then cp "$rebased" /tmp/.rebased.$$.diff; git -C "$wt" apply /tmp/.rebased.$$.diff; else git -C "$wt" apply "$src/patch.diff"; fi
 rm -f "$out/REJECTED"
 [ "$src" = "$out" ] || cp "$src/patch.diff" "$src/demo_test.go" "$out/"
+if [ -n "$rebased" ]; then
+  [ -f "$out/patch.as-written-by-agent.diff" ] || cp "$out/patch.diff" "$out/patch.as-written-by-agent.diff"
+  cp /tmp/.rebased.$$.diff "$out/patch.diff"; rm -f /tmp/.rebased.$$.diff
+fi
 ids="C01 C02 C03 C04 C05 C06 C07 C08 C09 C12 C13 C14 C15 C16 C17 C18 C19 C20"
 case "$pid" in C10|C11) ids="$ids C10 C11";; esac
 for e in $extra; do case " $ids " in *" $e "*) ;; *) ids="$ids $e";; esac; done
